@@ -1,1 +1,174 @@
-fn main() {}
+//! cx-ctvictim <op> <secret-hex> [<public-hex>]
+//! Runs one operation on black-boxed inputs between two markers. Built WITHOUT the verification cfg: this is the code users ship.
+//! The markers are tiny never-inlined functions whose addresses are printed first (for the lackey backend) and which load
+//! magic values into rax/rdi before a nop (for the ptrace single-step backend).
+
+use std::hint::black_box;
+
+#[inline(never)]
+#[no_mangle]
+pub extern "C" fn ct_marker_begin() {
+    unsafe {
+        core::arch::asm!("nop", in("rax") 0x5ca1ab1e0000c0deu64, in("rdi") 0xfeedface00000001u64);
+    }
+}
+
+#[inline(never)]
+#[no_mangle]
+pub extern "C" fn ct_marker_end() {
+    unsafe {
+        core::arch::asm!("nop", "nop", in("rax") 0x5ca1ab1e0000c0deu64, in("rdi") 0xfeedface00000002u64);
+    }
+}
+
+fn unhex(s: &str) -> Vec<u8> {
+    let b = s.as_bytes();
+    (0..b.len() / 2)
+        .map(|i| u8::from_str_radix(std::str::from_utf8(&b[2 * i..2 * i + 2]).unwrap(), 16).unwrap())
+        .collect()
+}
+
+fn arr<const N: usize>(v: &[u8]) -> [u8; N] {
+    let mut a = [0u8; N];
+    a.copy_from_slice(&v[..N]);
+    a
+}
+
+fn hex(b: &[u8]) -> String {
+    b.iter().map(|x| format!("{:02x}", x)).collect()
+}
+
+fn main() {
+    use cryptoxide::mac::Mac;
+    let args: Vec<String> = std::env::args().collect();
+    let op = args[1].as_str();
+    let secret = unhex(&args[2]);
+    let public = if args.len() > 3 { unhex(&args[3]) } else { Vec::new() };
+    println!("MARKERS {:x} {:x}", ct_marker_begin as usize, ct_marker_end as usize);
+    // everything the operation needs is prepared before the first marker
+    let out: Vec<u8> = match op {
+        "x25519_dh" => {
+            let n: [u8; 32] = arr(&secret);
+            let p: [u8; 32] = arr(&public);
+            ct_marker_begin();
+            let r = cryptoxide::curve25519::curve25519(black_box(&n), black_box(&p));
+            ct_marker_end();
+            r.to_vec()
+        }
+        "x25519_base" => {
+            let n: [u8; 32] = arr(&secret);
+            ct_marker_begin();
+            let r = cryptoxide::curve25519::curve25519_base(black_box(&n));
+            ct_marker_end();
+            r.to_vec()
+        }
+        "ed_keypair" => {
+            let s: [u8; 32] = arr(&secret);
+            ct_marker_begin();
+            let (kp, _pk) = cryptoxide::ed25519::keypair(black_box(&s));
+            ct_marker_end();
+            kp.to_vec()
+        }
+        "ed_sign" => {
+            let s: [u8; 32] = arr(&secret);
+            let (kp, _pk) = cryptoxide::ed25519::keypair(&s);
+            ct_marker_begin();
+            let sig = cryptoxide::ed25519::signature(black_box(&public), black_box(&kp));
+            ct_marker_end();
+            sig.to_vec()
+        }
+        "ed_sign_ext" => {
+            let e: [u8; 64] = arr(&secret);
+            ct_marker_begin();
+            let sig = cryptoxide::ed25519::signature_extended(black_box(&public), black_box(&e));
+            ct_marker_end();
+            sig.to_vec()
+        }
+        "poly1305" => {
+            let k: [u8; 32] = arr(&secret);
+            let mut tag = [0u8; 16];
+            ct_marker_begin();
+            let mut m = cryptoxide::poly1305::Poly1305::new(black_box(&k));
+            m.input(black_box(&public));
+            m.raw_result(&mut tag);
+            ct_marker_end();
+            tag.to_vec()
+        }
+        "hmac_sha256" => {
+            let mut tag = [0u8; 32];
+            ct_marker_begin();
+            let mut m = cryptoxide::hmac::Hmac::new(cryptoxide::sha2::Sha256::new(), black_box(&secret));
+            m.input(black_box(&public));
+            m.raw_result(&mut tag);
+            ct_marker_end();
+            tag.to_vec()
+        }
+        "chacha20" => {
+            let nonce = [7u8; 12];
+            let mut data = public.clone();
+            ct_marker_begin();
+            let mut c = cryptoxide::chacha20::ChaCha20::new(black_box(&secret), &nonce);
+            c.process_mut(black_box(&mut data));
+            ct_marker_end();
+            data
+        }
+        "salsa20" => {
+            let nonce = [7u8; 8];
+            let mut data = public.clone();
+            ct_marker_begin();
+            let mut c = cryptoxide::salsa20::Salsa20::new(black_box(&secret), &nonce);
+            c.process_mut(black_box(&mut data));
+            ct_marker_end();
+            data
+        }
+        "macresult_eq" => {
+            let a = cryptoxide::mac::MacResult::new(&secret);
+            let b = cryptoxide::mac::MacResult::new(&public);
+            ct_marker_begin();
+            let r = black_box(&a) == black_box(&b);
+            ct_marker_end();
+            vec![r as u8]
+        }
+        "tag_eq" => {
+            let a = cryptoxide::chacha20poly1305::Tag(arr(&secret));
+            let b = cryptoxide::chacha20poly1305::Tag(arr(&public));
+            ct_marker_begin();
+            let r = black_box(&a) == black_box(&b);
+            ct_marker_end();
+            vec![r as u8]
+        }
+        "aead_decrypt_tagcheck" => {
+            // full incremental decryption whose expected tag is the secret: verdict path must not depend on the mismatch position
+            let key = [9u8; 32];
+            let nonce = [7u8; 12];
+            let mut ctx = cryptoxide::chacha20poly1305::Context::<20>::new(&key, &nonce);
+            ctx.add_data(b"header");
+            let mut dec = ctx.to_decryption();
+            let mut buf = public.clone();
+            dec.decrypt_mut(&mut buf);
+            let tag = cryptoxide::chacha20poly1305::Tag(arr(&secret));
+            ct_marker_begin();
+            let r = dec.finalize(black_box(&tag));
+            ct_marker_end();
+            vec![(r == cryptoxide::chacha20poly1305::DecryptionResult::Match) as u8]
+        }
+        "noop" => Vec::new(),
+        // deliberately secret-dependent control flow: used only to show that the tracer detects it
+        "selftest_leaky" => {
+            ct_marker_begin();
+            let mut acc = 0u8;
+            for b in black_box(&secret).iter() {
+                if *b != 0 {
+                    acc = acc.wrapping_add(black_box(3));
+                }
+            }
+            ct_marker_end();
+            vec![acc]
+        }
+        _ => {
+            eprintln!("unknown op");
+            std::process::exit(2);
+        }
+    };
+    println!("OUT {}", hex(&out));
+}
